@@ -175,6 +175,7 @@ type vWsWorld struct {
 	upstreams []*vConn
 	upScript  func(up *vConn, n int) // behaviour of the n-th upstream connection (runs in its own goroutine)
 	dialErr   bool
+	upBroken  bool // upstream connections fail every write
 	started   []string // start messages received by upstreams (query texts)
 }
 
@@ -187,6 +188,8 @@ func verifWsDial(url string) (net.Conn, error) {
 		return nil, errors.New("dial refused")
 	}
 	up := vNewConn("upstream")
+	// an upstream that accepts the connection and is gone before the first write
+	up.reset = vWs.upBroken
 	n := len(vWs.upstreams)
 	vWs.upstreams = append(vWs.upstreams, up)
 	go vWs.upScript(up, n)
